@@ -26,16 +26,14 @@ class TsvNtTriplesYielder(BaseTriplesYielder):
             tokens = self._look_for_tokens(a_line.strip())
             if len(tokens) != 3:
                 self._error_triples += 1
-                log_msg(msg="This line caused error: " + a_line,
-                             source=self._source_file)
+                log_msg(verbose=False, msg="This line caused error: " + a_line)
             else:
                 try:
                     yield (
                     tune_token(tokens[0]), tune_prop(tokens[1]), tune_token(tokens[2], allow_untyped_numbers=True))
                     self._triples_count += 1
                 except ValueError as ve:
-                    log_msg(msg=ve.message + "This line caused error: " + a_line,
-                                 source=self._source_file)
+                    log_msg(verbose=False, msg=str(ve) + ". This line caused error: " + a_line)
                 # if self._triples_count % 10000 == 0:
                 #     print("Reading..." + self._triples_count)
 
